@@ -255,6 +255,18 @@ func runSigCase(ci interface{}, rec *pbt.Rec) *pbt.Failure {
 	if mtypes.ValidateEthereumSignature(flipped, sig, addr) == nil {
 		return pbt.Failf("signature-valid-for-other-digest", "signature validates for a digest differing in one bit")
 	}
+	// a signature over the bare digest (no "\x19Ethereum Signed Message:\n32" prefix) is not one the contract accepts
+	if raw, err := ethcrypto.Sign(hubDigest, key); err == nil && mtypes.ValidateEthereumSignature(hubDigest, raw, addr) == nil {
+		return pbt.Failf("unprefixed-signature-accepted", "a signature over the bare digest, which Hub2.verifySig rejects, validates on the hub")
+	}
+	// nor does a signature made for this digest serve for the digest's own prefixed hash (or the other way round)
+	pre := ethcrypto.Keccak256(append([]byte("\x19Ethereum Signed Message:\n32"), hubDigest...))
+	if mtypes.ValidateEthereumSignature(pre, sig, addr) == nil {
+		return pbt.Failf("signature-valid-for-other-digest", "the signature for digest D validates for keccak256(prefix || D) as well")
+	}
+	if psig, err := mtypes.NewEthereumSignature(pre, key); err == nil && mtypes.ValidateEthereumSignature(hubDigest, psig, addr) == nil {
+		return pbt.Failf("signature-valid-for-other-digest", "a signature made for keccak256(prefix || D) validates for D")
+	}
 	v27 := append([]byte{}, sig...)
 	v27[64] += 27
 	if err := mtypes.ValidateEthereumSignature(hubDigest, v27, addr); err != nil {
